@@ -368,6 +368,47 @@ void sim_skip(const char *why)
     SIM_COV_DUMP();
     _exit(3);
 }
+/* ------------------------------------------------------------------ the library's own static state
+   Workers execute thousands of runs per process.  Whatever the library keeps in static variables (tables, caches, "already
+   initialised" flags, a scratch buffer pointer) would otherwise leak from one run into the next, and a verdict would depend on
+   which runs a worker had executed before.  The library objects' .data/.bss are therefore collected in sections of their own
+   (sim/Makefile, LIBSECT), copied once at process start and copied back before every run.  Within a run static state survives
+   as in any program -- that is what multi-cycle and multi-parse plans exercise.  (Not in the coverage build: gcov's counters live
+   in the same sections.) */
+#ifndef SIM_COV
+#define LIBSEC_DECL(n) extern char __start_##n[] __attribute__((weak)), __stop_##n[] __attribute__((weak));
+LIBSEC_DECL(libdata) LIBSEC_DECL(libbss) LIBSEC_DECL(libdatarel) LIBSEC_DECL(libdatarel2)
+static struct { char *lo, *hi, *copy; } libsec[4];
+__attribute__((no_sanitize("address"))) static void rawcopy(void *dst, const void *src, size_t n)
+{
+    /* (the sections hold ASan's poisoned redzones between the variables: no memcpy, no instrumentation) */
+    volatile uint64_t *d = dst; const volatile uint64_t *s = src;
+    size_t w = n / 8;
+    for (size_t i = 0; i < w; i++) d[i] = s[i];
+    for (size_t i = w * 8; i < n; i++) ((volatile char *)dst)[i] = ((const volatile char *)src)[i];
+}
+static void lib_state_save(void)
+{
+    libsec[0].lo = __start_libdata; libsec[0].hi = __stop_libdata;
+    libsec[1].lo = __start_libbss; libsec[1].hi = __stop_libbss;
+    libsec[2].lo = __start_libdatarel; libsec[2].hi = __stop_libdatarel;
+    libsec[3].lo = __start_libdatarel2; libsec[3].hi = __stop_libdatarel2;
+    for (int i = 0; i < 4; i++) if (libsec[i].lo && libsec[i].hi > libsec[i].lo) {
+        libsec[i].copy = malloc((size_t)(libsec[i].hi - libsec[i].lo));
+        rawcopy(libsec[i].copy, libsec[i].lo, (size_t)(libsec[i].hi - libsec[i].lo));
+    }
+}
+static void lib_state_restore(void)
+{
+    for (int i = 0; i < 4; i++) if (libsec[i].copy) rawcopy(libsec[i].lo, libsec[i].copy, (size_t)(libsec[i].hi - libsec[i].lo));
+}
+size_t sim_lib_state_bytes(void) { size_t n = 0; for (int i = 0; i < 4; i++) if (libsec[i].copy) n += (size_t)(libsec[i].hi - libsec[i].lo); return n; }
+#else
+static void lib_state_save(void) {}
+static void lib_state_restore(void) {}
+size_t sim_lib_state_bytes(void) { return 0; }
+#endif
+
 static void arm_watchdog(int seconds);
 void sim_step(void)
 {
@@ -467,6 +508,7 @@ static void run_plan(const engine_t *e, plan_t *p)
     R.step_budget = (uint64_t)plan_get(p, "budget", 20000);
     R.clock_us = 0;
     arm_watchdog(20);
+    lib_state_restore();
     world_reset(p);
     R.in_run = 1;
     e->exec(p);
@@ -499,6 +541,7 @@ int main(int argc, char **argv)
         return 2;
     }
     install_handlers();
+    lib_state_save();
     sa_init();
     if (!strcmp(argv[1], "gen") && argc >= 4) {
         if (!(e = engine_for(argv[2]))) { fprintf(stderr, "no engine for %s\n", argv[2]); return 2; }
